@@ -5,18 +5,33 @@ spec   : specs/Geometry.tla (shared with C01).  The laws are invariants of the m
          of d only), OmegaLaw (G(omega2) = Rz(omega2-omega1)^T G(omega1)), Roundtrip (Project returns the ray
          parameter s = 1 and the integer pixel; the generating omega solves a sin x + b cos x = c exactly),
          EwaldBound (valid => |g| <= 2/lambda).  Machines InitInv / InitRaw decide the validity of a g-vector by integer
-         comparison (a^2 + b^2 > 0 and c^2 <= a^2 + b^2).
-binding: mode A, three parts
+         comparison (a^2 + b^2 > 0 and c^2 <= a^2 + b^2).  Machine InitAx (AxisLaw; same TLC run as InitRaw) holds the documented conventions of
+         gv_general: rot(n, a) as the Rodrigues vector formula and as a matrix, g = pre . rot(axis, angle) . post . k.
+binding: mode A, four parts
    (i)   laws on code output: for every batch with t = 0 the code is called at sibling settings (other omega, wedge,
          chi, omegasign - rational and arbitrary): |g| must equal 2 sin(theta)/lambda (theta from the detector position
-         alone) and the oracle's ds for all of them, g(omega2) must be the Rz-rotated g(omega1); ds, tth, |g| columns
-         of columnfile / compute_geometry must satisfy ds = 2 sin(tth/2)/lambda = |g|
+         alone) and the oracle's ds for all of them, g(omega2) must be the Rz-rotated g(omega1) (raw C kernels,
+         transform.compute_g_vectors, the numba copy, Ctransform, columnfile fast / slow); the g-vectors of sf2gv and of
+         columnfile.updateGV fast / slow at every sibling setting go back through uncompute_g_vectors and one solution
+         must be the peak's (omega * omegasign, eta), tth its two-theta (code-level round trip, any omega sign, arbitrary
+         wedge / chi).  On EVERY batch (any t): ds = 2 sin(tth/2)/lambda = |g| on the columns of columnfile fast / slow,
+         Ctransform.xyz2geometry, compute_geometry and on (tth, gv) of refinegrains.compute_gv
    (ii)  gv_general.g_to_k and transform.uncompute_g_vectors on every InitInv / InitRaw record: the valid flag must be
          the exact Ewald inequality (not judged on exactly tangent / degenerate vectors), invalid vectors must come
          back without angles, both solutions pushed forward (through an independent transcription of the model and
-         through compute_g_vectors) must reproduce g, the generating (omega, eta) must be one of the solutions
+         through compute_g_vectors) must reproduce g, the generating (omega, eta) must be one of the solutions; the
+         `pre` arm (A^T g with pre = A for three exact rotations A) and the default axis +z (opposite angles) must give
+         the same flags and solutions (harness-only family: the model is covariant under a rotation of g)
    (iii) transform.compute_xyz_from_tth_eta on every forward record must return the integer pixel, and
-         compute_tth_eta of the returned pixel the angles (rays lying in the detector plane are skipped)
+         compute_tth_eta of the returned pixel the angles; the same ray alone (a one-row batch) must land on the same
+         pixel; rays lying in the detector plane are not judged (the ordinary rays sharing their batch are)
+   (iv)  every InitAx record (7 unit axes x 4 pre-rotations x wedge, chi, angle x 3 k-vectors): gv_general.wedgemat,
+         chimat, wedgechi, chiwedge = the exact matrices; k_to_g (every None / matrix / default-axis arm) = g;
+         rotation_axis.rotate_vectors / rotate_vectors_inverse with per-vector angles and through the matrix arm
+         (angles=None), .matrix / to_matrix() / .inversematrix = R, R^-1; axis_from_matrix(R).matrix = R (half turns
+         excepted); g_to_k(axis = +-z, pre = inverse of the pre that built g, post = wedgechi) has the generating angle
+         among its solutions.  Non-unit directions and g_to_k about other axes are outside the quantifier:
+         notes["observations"] only.
 """
 import json, time
 import numpy as np
@@ -44,13 +59,20 @@ def do_forward_batch(chk, rt, group, rng, stats, only=None):
     orc = G.Oracle(group)
     P = orc.P
     if orc.par["t"] == [0, 0, 0] and only in (None, "laws"):
-        J = G.judge_laws(rt, orc, rng)
+        J = G.judge_laws(rt, orc, rng, stats=stats)
         stats["law_batches"] += 1
         stats["comparisons"] += J.ncmp
         stats["worst_ratio"] = max(stats["worst_ratio"], J.worst)
         report(chk, J, "laws", {"records": group}, P)
+    if only in (None, "internal"):
+        J = G.judge_internal(rt, orc)
+        stats["internal_law_batches"] += 1
+        stats["internal_law_batches_t_nonzero"] += int(orc.par["t"] != [0, 0, 0])
+        stats["comparisons"] += J.ncmp
+        stats["worst_ratio"] = max(stats["worst_ratio"], J.worst)
+        report(chk, J, "internal", {"records": group}, P)
     if only in (None, "project"):
-        J, k = G.judge_project(rt, orc)
+        J, k = G.judge_project(rt, orc, stats=stats)
         stats["projected"] += k
         stats["projection_skipped_ray_in_plane"] += orc.n - k
         stats["comparisons"] += J.ncmp
@@ -69,13 +91,63 @@ def do_inverse_batch(chk, rt, batch, stats):
            {"wedge": G.ang_deg(p0["wedge"]), "chi": G.ang_deg(p0["chi"]), "wavelength": p0["wl"][0] / float(p0["wl"][1])})
 
 
+def do_axis_batch(chk, rt, batch, stats):
+    J, st = G.judge_axis(rt, batch)
+    for k, v in st.items():
+        stats["axis_" + k] = stats.get("axis_" + k, 0) + v
+    stats["comparisons"] += J.ncmp
+    stats["worst_ratio"] = max(stats["worst_ratio"], J.worst)
+    p0 = batch[0]["par"]
+    report(chk, J, "axis", {"records": batch},
+           {"axis": batch[0]["axis"], "pre": batch[0]["pre"], "wedge": G.ang_deg(p0["wedge"]), "chi": G.ang_deg(p0["chi"]),
+            "wavelength": p0["wl"][0] / float(p0["wl"][1])})
+
+
+def observations(rt, stats):
+    """behaviour seen on the way that lies outside the property's quantifier: written down, never judged"""
+    obs = []
+    try:
+        import logging
+        logging.disable(logging.WARNING)
+        try:
+            o = rt.gv_general.rotation_axis([0, 0, 2.0], 90.0)
+        finally:
+            logging.disable(logging.NOTSET)
+        obs.append("gv_general.rotation_axis normalises a non-unit direction d by |d|^2 instead of |d| (gv_general.py:56-58): "
+                   "rotation_axis([0,0,2], 90) has direction %s and a matrix with M.M^T = diag%s; every caller inside the "
+                   "property passes a unit axis (+-z), so non-unit directions are excluded from the SpecAx machine"
+                   % (np.asarray(o.direction).tolist(), np.round(np.diag(o.matrix.dot(o.matrix.T)), 6).tolist()))
+    except Exception as e:
+        obs.append("gv_general.rotation_axis([0,0,2], 90) raised %r" % (e,))
+    if stats.get("axis_oblique_axis_g_to_k_rows"):
+        obs.append("gv_general.g_to_k returns the generating angle of k_to_g only for the axes +-z (with post = wedgechi "
+                   "where k_to_g takes chiwedge): for the axes x, -y and the three oblique axes of SpecAx it missed it in %d of "
+                   "%d rows; the instrument's axis is z, other axes are outside the quantifier and are not judged"
+                   % (stats["axis_oblique_axis_g_to_k_misses"], stats["axis_oblique_axis_g_to_k_rows"]))
+    if stats.get("axis_half_turns_not_representable"):
+        obs.append("gv_general.axis_from_matrix cannot represent a rotation by 180 degrees (direction = 0/0); %d such "
+                   "matrices were not handed to it" % stats["axis_half_turns_not_representable"])
+    try:
+        rt.transform.compute_grain_origins([0.0, 10.0], t_x=1.0)
+        obs.append("transform.compute_grain_origins accepts omega as a list")
+    except Exception as e:
+        obs.append("transform.compute_grain_origins / compute_xyz_from_tth_eta need omega as a numpy array: a Python list "
+                   "raises %s (undocumented input kind, not judged)" % type(e).__name__)
+    obs.append("rays lying in the detector plane (no intersection): compute_xyz_from_tth_eta returned exactly (0, 0) for %d of "
+               "them (its `norm == 0` arm) and an arbitrary finite pixel for the others (rounding leaves norm ~ 1e-17); not "
+               "judged, the ordinary rays of the same batch are" % stats.get("projection_inplane_rows_masked_to_0_0", 0))
+    return obs
+
+
 def run(tier, replay=None):
     chk = common.Check(PROP, tier)
     shadow = common.build_shadow("normal")
     common.use_shadow(shadow)
-    rt = G.Routes(numba_routes=(tier == "thorough" and not replay))
+    rt = G.Routes(numba_routes=True)
     rng = np.random.default_rng(common.seed())
-    chk.rule = ("forward records as in C01 (laws on the t = 0 batches, projection on all); inverse records: d = Pythagorean "
+    chk.rule = ("forward records as in C01 (sibling-setting laws and the uncompute round trip on the t = 0 batches, route-internal "
+                "laws and projection on all); axis records: unit axis x pre-rotation x (wedge, chi, angle) x Pythagorean k-vector; "
+                "inverse records: d = Pythagorean "
                 "quadruple x (wedge, chi, omega) with at most two Pythagorean angles x scale {1, 2}, and raw vectors "
                 "(s q/|q|)/lambda, s in {1/2, 1, 3/2, 2, 5/2}, incl. the rotation axis; non-trivial forward = some switch on "
                 "or non-default flip/sign; non-trivial inverse = wedge or chi non-zero or vector invalid; distinct = distinct record")
@@ -87,13 +159,16 @@ def run(tier, replay=None):
         "intersection (1/cos(incidence)); rays lying in the detector plane are skipped",
         "an invalid vector may come back as 0 or NaN (|g| > 2/lambda makes the code's arcsin NaN), never as a finite angle",
     ]
-    stats = {"comparisons": 0, "worst_ratio": 0.0, "law_batches": 0, "projected": 0, "projection_skipped_ray_in_plane": 0}
+    stats = {"comparisons": 0, "worst_ratio": 0.0, "law_batches": 0, "projected": 0, "projection_skipped_ray_in_plane": 0,
+             "internal_law_batches": 0, "internal_law_batches_t_nonzero": 0}
     if replay:
         global REPLAYING
         REPLAYING = replay
         case = json.load(open(replay))["case"]
         if case["kind"] == "inverse":
             do_inverse_batch(chk, rt, case["records"], stats)
+        elif case["kind"] == "axis":
+            do_axis_batch(chk, rt, case["records"], stats)
         else:
             do_forward_batch(chk, rt, case["records"], rng, stats, only=case["kind"])
         chk.traces += len(case["records"])
@@ -110,8 +185,8 @@ def run(tier, replay=None):
                                timeout=600)
         inv = G.run_geometry(chk, "Geometry inverse (quick angle set)", "inv_q", workers=WORKERS, coverage=True,
                              actions=G.INV_ACTIONS, timeout=600)
-        raw = G.run_geometry(chk, "Geometry raw vectors (quick angle set)", "raw_q", workers=WORKERS, coverage=True,
-                             actions=G.RAW_ACTIONS, timeout=600)
+        raw = G.run_geometry(chk, "Geometry raw vectors + axis rotations (quick angle sets)", "raw_q", workers=WORKERS,
+                             coverage=True, actions=G.RAW_ACTIONS + G.AX_ACTIONS, timeout=600)
         chk.exhaustive = False
     else:
         G.run_geometry(chk, "Geometry forward corner set (exhaustive, coverage)", "fwd_corner", workers=WORKERS,
@@ -121,8 +196,12 @@ def run(tier, replay=None):
             raise common.MachineryError("full lattice emitted %d records, expected 262144" % len(recs))
         inv = G.run_geometry(chk, "Geometry inverse (all angle triples with <= 2 Pythagorean)", "inv_t", workers=WORKERS,
                              coverage=True, actions=G.INV_ACTIONS, timeout=1200)
-        raw = G.run_geometry(chk, "Geometry raw vectors (all wedge x chi)", "raw_t", workers=WORKERS, coverage=True,
-                             actions=G.RAW_ACTIONS, timeout=1200)
+        raw = G.run_geometry(chk, "Geometry raw vectors (all wedge x chi) + axis rotations (all angle triples with <= 2 "
+                             "Pythagorean)", "raw_t", workers=WORKERS, coverage=True, actions=G.RAW_ACTIONS + G.AX_ACTIONS,
+                             timeout=1200)
+    # the raw-vector machine and the axis machine share one TLC run (SpecRawAx)
+    axr = [r for r in raw if r["mode"] == "ax"]
+    raw = [r for r in raw if r["mode"] == "raw"]
     t0 = time.time()
     groups = G.group_records(recs)
     for gi, group in enumerate(groups):
@@ -151,9 +230,26 @@ def run(tier, replay=None):
             chk.sample({"inverse_record": batch[0]})
         if len(chk.violations) > 24:
             break
+    abatches = {}
+    for r in axr:
+        abatches.setdefault(G.axis_key(r), []).append(r)
+    for bi, batch in enumerate(abatches.values()):
+        do_axis_batch(chk, rt, batch, stats)
+        for r in batch:
+            p = r["par"]
+            chk.case(("ax", r["ai"], r["pi"], r["q"], p["wedge"], p["chi"], p["omega"]),
+                     nontrivial=p["omega"] != [1, 0, 1] and (r["ai"] > 1 or r["pi"] > 1 or p["wedge"] != [1, 0, 1]
+                                                             or p["chi"] != [1, 0, 1]))
+            chk.traces += 1
+        if bi == 11:
+            chk.sample({"axis_record": batch[-1]})
+        if len(chk.violations) > 24:
+            break
     chk.notes.update(stats)
     chk.notes["forward_batches"] = len(groups)
     chk.notes["inverse_batches"] = len(batches)
+    chk.notes["axis_batches"] = len(abatches)
+    chk.notes["observations"] = observations(rt, stats)
     chk.notes["replay_s"] = round(time.time() - t0, 1)
     # vacuity guards: every class of inverse case must occur, laws and projection must have been exercised
     # (only meaningful for a run that was not cut short by violations)
@@ -163,12 +259,19 @@ def run(tier, replay=None):
                 raise common.MachineryError("vacuity: %s = %d" % (k, stats.get(k, 0)))
         if stats["law_batches"] < 20 or stats["projected"] < 100:
             raise common.MachineryError("vacuity: %r" % (stats,))
-        selftest(rt, groups, list(batches.values()))
+        for k in ("roundtrip_rows", "roundtrip_rows_negative_sign", "numba_law_rows", "internal_law_batches_t_nonzero",
+                  "projection_single_row_calls", "projection_mixed_batches", "inverse_pre_axis_arm_rows", "axis_k_to_g",
+                  "axis_rotate_vectors", "axis_matrix_arm", "axis_axis_from_matrix", "axis_g_to_k_pre_post",
+                  "axis_g_to_k_default_axis"):
+            if stats.get(k, 0) < 10:
+                raise common.MachineryError("vacuity: %s = %d" % (k, stats.get(k, 0)))
+        selftest(rt, groups, list(batches.values()), list(abatches.values()))
     return chk.finish()
 
 
-def selftest(rt=None, groups=None, batches=None):
-    """perturbed expectations (Bragg length, projected pixel, validity flag, two-theta) must be rejected"""
+def selftest(rt=None, groups=None, batches=None, abatches=None):
+    """perturbed expectations (Bragg length, round-trip two-theta, projected pixel, validity flag, two-theta, the
+    g-vector of the axis machine) must be rejected"""
     if rt is None:
         import sys
         if "ImageD11" not in sys.modules:
@@ -184,8 +287,12 @@ def selftest(rt=None, groups=None, batches=None):
     rng = np.random.default_rng(1)
     g0 = next(g for g in groups if g[0]["par"]["t"] == [0, 0, 0] and any(g[0]["par"]["sw"][:5]))
     if not G.judge_laws(rt, G.Oracle(g0), rng).problems:
-        if not G.judge_laws(rt, G.Oracle(g0), rng, perturb="bragg").problems:
-            raise common.MachineryError("selftest: perturbed Bragg law accepted")
+        for pt in ("bragg", "roundtrip"):
+            if not G.judge_laws(rt, G.Oracle(g0), rng, perturb=pt).problems:
+                raise common.MachineryError("selftest: perturbed %s law accepted" % pt)
+    if abatches:
+        if not G.judge_axis(rt, abatches[0])[0].problems and not G.judge_axis(rt, abatches[0], perturb="g")[0].problems:
+            raise common.MachineryError("selftest: perturbed axis-machine g accepted")
     g1 = next(g for g in groups if any(g[0]["par"]["t"]) and G.Oracle(g).cosinc.min() > 0.1)
     if not G.judge_project(rt, G.Oracle(g1))[0].problems:
         if not G.judge_project(rt, G.Oracle(g1), perturb="pixel")[0].problems:
